@@ -207,6 +207,11 @@ class Interp:
         item = st.items[0]
         call = item.context_expr
         if not isinstance(call, ast.Call):
+            v = self.eval(call)
+            if isinstance(v, SRef) and v.pytype == 'Lock' and item.optional_vars is None:
+                self.w.dropped.add('with <queue>.mutex: (mutual exclusion of one statement; no effect on sequential state)')
+                self.exec_block(st.body)
+                return
             raise Unsupported('with on a non-call')
         fv, args, kwargs = self.eval_callee_and_args(call)
         if not (isinstance(fv, SFunc) and getattr(fv, 'contextmanager', False)):
@@ -238,6 +243,17 @@ class Interp:
     def st_For(self, st):
         if st.orelse:
             raise Unsupported('for/else')
+        if isinstance(st.iter, ast.Tuple):
+            # a literal tuple of known length: unrolled, no invariant needed
+            for v in self.eval(st.iter):
+                self.assign(st.target, v)
+                try:
+                    self.exec_block(st.body)
+                except ContinueSignal:
+                    continue
+                except BreakSignal:
+                    break
+            return
         self.run_loop(st, kind='for')
 
     def run_loop(self, st, kind):
@@ -257,8 +273,8 @@ class Interp:
         if getattr(spec, 'on_entry', None):
             spec.on_entry(self, env)
         # 1. invariant on entry
-        for nm, f in spec.invariant(self, env):
-            c.prove('%s:inv-init/%s' % (lname, nm), f)
+        for nm, f, *tg in spec.invariant(self, env):
+            c.prove('%s:inv-init/%s' % (lname, nm), f, tags=tg[0] if tg else ())
         # 2. havoc
         assigned = _assigned_names(st.body)
         if kind == 'for':
@@ -275,10 +291,11 @@ class Interp:
             r = ref.e if isinstance(ref, SRef) else ref
             c.heap[field] = z3.Store(c.harr(field), r, c.fresh('hv_' + field.replace('$', ''), field_sort(field)))
         for g in getattr(spec, 'ghost_modifies', []) or []:
-            c.ghost[g] = c.fresh('g_' + g, c.ghost[g].sort())
+            if g in c.ghost:
+                c.ghost[g] = c.fresh('g_' + g, c.ghost[g].sort())
         if kind == 'for':
             B.for_havoc(self, st, env, ordinal, it_state)
-        for nm, f in spec.invariant(self, env):
+        for nm, f, *tg in spec.invariant(self, env):
             c.assume(f)
         if spec.after_havoc:
             spec.after_havoc(self, env)
@@ -316,8 +333,8 @@ class Interp:
         self.check_loop_frame(lname, mods, saved_log, saved_fresh)
         if spec.body_end:
             spec.body_end(self, env)
-        for nm, f in spec.invariant(self, env):
-            c.prove('%s:inv-preserved/%s' % (lname, nm), f)
+        for nm, f, *tg in spec.invariant(self, env):
+            c.prove('%s:inv-preserved/%s' % (lname, nm), f, tags=tg[0] if tg else ())
         if v0 is not None:
             v1 = spec.variant(self, env)
             c.prove('%s:variant/decreases' % lname, z3.And(v0 >= 0, v1 < v0), tags=('termination',))
@@ -404,6 +421,11 @@ class Interp:
 
     def ev_List(self, e):
         return B.new_list(self, [self.eval(x) for x in e.elts])
+
+    def ev_Dict(self, e):
+        if e.keys:
+            raise Unsupported('non-empty dict literal')
+        return B.new_dict(self)
 
     def ev_IfExp(self, e):
         cond = self.truth(self.eval(e.test))
@@ -529,6 +551,10 @@ class Interp:
 
     def equal(self, a, b):
         c = self.c
+        if isinstance(a, tuple) and len(a) == 2 and a[0] == 'typeof':
+            return B.type_is(self, a[1], b)
+        if isinstance(b, tuple) and len(b) == 2 and b[0] == 'typeof':
+            return B.type_is(self, b[1], a)
         if not is_sym(a) and not is_sym(b):
             if isinstance(a, (SFunc, SClass)) or isinstance(b, (SFunc, SClass)):
                 return self.identical(a, b)
@@ -661,12 +687,16 @@ class Interp:
             fi = self.src.find_method(name, attr)
             if fi is not None:
                 return self.w_method(fi)
-            v, _ = self.src.find_class_attr(name, attr)
+            v, owner = self.src.find_class_attr(name, attr)
             if v is not None:
                 try:
                     return ast.literal_eval(v)
                 except Exception:
-                    raise Unsupported('class attribute %s.%s is not a literal' % (name, attr))
+                    pass
+                if isinstance(v, ast.Call) and isinstance(v.func, ast.Attribute) and v.func.attr == 'count' \
+                        and isinstance(v.func.value, ast.Name) and v.func.value.id == 'itertools' and not v.args:
+                    return SRef(self.w.strobj('<itertools.count %s.%s>' % (owner, attr)), 'counter')
+                raise Unsupported('class attribute %s.%s is not a literal' % (name, attr))
         raise Unsupported('class attribute %s.%s' % (cls.name, attr))
 
     def w_method(self, fi):
@@ -702,7 +732,8 @@ class Interp:
         return B.listcomp(self, e)
 
     def ev_Lambda(self, e):
-        raise Unsupported('lambda outside the modelled map(lambda x: id(x), ..) idiom')
+        # only map(lambda x: id(x), seq) is modelled; the builtin `map` inspects the node, anything else rejects it
+        return ('lambda', e)
 
     def ev_Starred(self, e):
         raise Unsupported('starred expression')
@@ -773,6 +804,10 @@ class Interp:
                 return SBuiltin(B.base_type(pt) + '.' + attr, obj)
             if pt == 'str':
                 return SBuiltin('str.' + attr, obj)
+            if pt == 'subq':
+                return SBuiltin('subq.' + attr, obj)
+            if pt == 'Lock':
+                return SBuiltin('Lock.' + attr, obj)
             return self.get_attr(obj, attr, node)
         if isinstance(obj, str):
             return SBuiltin('str.' + attr, obj)
@@ -854,6 +889,10 @@ class Interp:
             env[a.kwarg.arg] = dict(kwargs)
         elif kwargs:
             raise Raised('TypeError')
+        for k, v in list(env.items()):
+            lt = self.w.local_types.get((fn.info.path, k))
+            if lt and isinstance(v, SRef):
+                env[k] = SRef(v.e, lt)
         return env
 
     def const_default(self, d, fn):
